@@ -6,6 +6,7 @@ import MsPack.Driver.Chm
 import MsPack.Driver.Szdd
 import MsPack.Driver.Kwaj
 import MsPack.Driver.Oab
+import MsPack.Driver.SzddSys
 /-
 mspack-driver: replays case files (PROTOCOL.md) on the Lean model and prints the result lines
 the C harness prints for the real library.  Ops no format module answers print `<op> unsupported`.
@@ -20,6 +21,8 @@ structure St where
   szdd   : Szdd.State := {}
   kwaj   : Kwaj.State := {}
   oab    : Oab.State := {}
+  sys    : SzddSys.State := {}
+  sysMode : Bool := false          -- `--sys`: szdd ops run on the effect model, nothing else is answered
 
 /-- run one format's handler on the op; returns whether it answered -/
 def tryFmt {σ : Type} (h : List String → HM σ Bool) (get : St → σ) (set : St → σ → St)
@@ -28,6 +31,10 @@ def tryFmt {σ : Type} (h : List String → HM σ Bool) (get : St → σ) (set :
   (ok, { set st hs.st with shared := hs.shared }, hs.lines)
 
 def dispatch (toks : List String) (st : St) : St × Array String :=
+  if st.sysMode then
+    let t := tryFmt SzddSys.handle (·.sys) (fun s x => { s with sys := x }) toks st
+    if t.1 then (t.2.1, t.2.2) else (st, #[s!"{toks.headD "?"} unsupported"])
+  else
   let try1 := tryFmt Prim.handle (·.prim) (fun s x => { s with prim := x }) toks st
   if try1.1 then (try1.2.1, try1.2.2) else
   let try2 := tryFmt Cab.handle (·.cab) (fun s x => { s with cab := x }) toks st
@@ -43,7 +50,7 @@ def dispatch (toks : List String) (st : St) : St × Array String :=
   (st, #[s!"{toks.headD "?"} unsupported"])
 
 def addFile (st : St) (name : String) (b : Bytes) : St :=
-  { st with shared := { st.shared with files := (name, b) :: st.shared.files.filter (·.1 ≠ name) } }
+  { st with sys := SzddSys.addFile st.sys name b, shared := { st.shared with files := (name, b) :: st.shared.files.filter (·.1 ≠ name) } }
 
 def doLine (st : St) (toks : List String) : IO St := do
   match toks with
@@ -64,6 +71,7 @@ def doLine (st : St) (toks : List String) : IO St := do
     match parseHex hh with
     | some [b] => return { st with shared := { st.shared with fill := b } }
     | _ => IO.println "error bad-directive"; return st
+  | ["fault", kind, k] | ["fault", kind, k, _] => return { st with sys := SzddSys.addFault st.sys kind k }
   | "fault" :: _ => return st
   | "trace" :: _ => return st
   | "edges" :: _ => return st
@@ -74,18 +82,19 @@ def doLine (st : St) (toks : List String) : IO St := do
     for l in lines do IO.println l
     return st
 
-def runCase (path : String) : IO Unit := do
+def runCase (sysMode : Bool) (path : String) : IO Unit := do
   IO.println s!"== CASE {path}"
   let text ← IO.FS.readFile path
-  let mut st : St := {}
+  let mut st : St := { sysMode := sysMode }
   for l in text.splitOn "\n" do
     let l := l.trimAscii.toString
     if l.isEmpty || l.startsWith "#" then continue
     st ← doLine st (l.splitOn " ")
-  IO.println "end"
+  IO.println (if sysMode then SzddSys.endLine st.sys else "end")
   (← IO.getStdout).flush
 
 def main (args : List String) : IO UInt32 := do
-  for a in args do
-    try runCase a catch e => IO.println s!"DRIVER-ERROR {e}"
+  let sysMode := args.head? = some "--sys"
+  for a in (if sysMode then args.drop 1 else args) do
+    try runCase sysMode a catch e => IO.println s!"DRIVER-ERROR {e}"
   return 0
